@@ -693,7 +693,9 @@ def undefine_unused_variables(source: str, preserve: Collection[str] = frozenset
             ast.AnnAssign(target=ast.Name(id="_")),
             ast.AugAssign(target=ast.Name(id="_")),
     ),):
-        if "_" in preserve or any(core.walk(root, ast.Name(id="_", ctx=ast.Load))):
+        if "_" in preserve or any(
+            core.walk(root, (ast.Name(id="_", ctx=ast.Load), ast.Attribute(attr="_")))
+        ):
             # Something assigned to _ that is meant to stay, or that is read: _ = gettext.gettext
             continue
         if node not in class_body_blacklist:
@@ -891,7 +893,9 @@ def delete_pointless_statements(source: str) -> str:
     ast_tree = core.parse(source)
     safe_callables = parsing.safe_callable_names(ast_tree)
     # Assigning to _ only is meaningless if nothing reads _, like print(_("text")) does
-    underscore_is_read = any(core.walk(ast_tree, ast.Name(id="_", ctx=ast.Load)))
+    underscore_is_read = any(
+        core.walk(ast_tree, (ast.Name(id="_", ctx=ast.Load), ast.Attribute(attr="_")))
+    )
     for node in itertools.chain([ast_tree], parsing.iter_bodies_recursive(ast_tree)):
         for i, child in enumerate(node.body):
             if underscore_is_read and any(
